@@ -30,7 +30,7 @@ AXES = {
     'dtype_ids': ['int32', 'int64', 'uint32', 'uint16'], 'dtype_map': ['int32', 'int64', 'uint32'],
     'alf_store_samples': [True, False], 'nan': ['none', 'amps', 'similar', 'attrs', 'template'],
     'attrs': ['none', 'right', 'wrong_len', 'both'], 'spikeless': ['none', 'first', 'middle', 'last'],
-    'dat_path_str': [False, True],
+    'dat_path_str': [False, True], 'alf_skew': [False, True],
 }
 RULE = ('Each case = one generated dataset directory (configuration vector over %d axes: %s) + random '
         'contents, loaded with the real load_model; every listed public attribute is compared with the '
@@ -101,8 +101,11 @@ def build(case):
     if o['sparse_templates']:
         pass
     spec = random_spec(rng, **{k: v for k, v in o.items() if k not in (
-        'nan', 'attrs', 'alf_store_samples', 'dat_path_str')})
+        'nan', 'attrs', 'alf_store_samples', 'dat_path_str', 'alf_skew')})
     spec.alf_store_samples = o['alf_store_samples']
+    if o['alf_skew'] and o['names'] == 'alf' and spec.alf_store_samples:
+        # clock-synchronised seconds: monotonic but not bit-identical to samples / rate
+        spec.alf_times_custom = spec.spike_samples.astype(np.float64) / spec.sample_rate * 1.00002 + 0.125
     spec.notes['dat_path_str'] = bool(o['dat_path_str'] and spec.raw is not None and
                                       len(spec.raw_parts or [1]) == 1)
     ns = spec.n_spikes
@@ -128,7 +131,15 @@ def build(case):
         s = spec.spike_samples.copy()
         pos = {'first': 0, 'middle': ns // 2, 'last': ns - 2}[case['reject']]
         s[pos] = s[pos + 1] + 1 + int(rng.integers(0, 3))
-        spec.spike_samples = s
+        if spec.alf_times_custom is not None and ns % 2:
+            # only the stored seconds are out of order, the stored samples stay sorted
+            t = spec.alf_times_custom.copy()
+            t[pos] = t[pos + 1] + 0.5
+            spec.alf_times_custom = t
+        else:
+            spec.spike_samples = s
+            if spec.alf_times_custom is not None:
+                spec.alf_times_custom = s.astype(np.float64) / spec.sample_rate * 1.00002 + 0.125
     return spec, o
 
 
